@@ -102,11 +102,22 @@ def o16_4(tier):
             "a junction is flagged iff some pair of interface directions there opens by at least the limit; an internal interface is dropped iff both its ends are flagged; order of the others kept",
             tier="Pn")
 def o16_1(tier):
-    def mk(shape, k, infinite):
+    def mk(shape, k, infinite, quiet_ends=False):
         def h(ctx):
             m, fr, cycles, info, _ = build(ctx, shape, k)
             u = versor_by_contract(ctx, fr)
             limit = float("inf") if infinite else ctx.real("limit")
+            if quiet_ends and ctx.mode == "sym":
+                # cheaper instance: only the inner junction may be flagged (the outer ends open by less than the limit)
+                from fvc import sym as S
+                inner = set(info["junction_rows"])
+                for v in sorted({vv for (_, vv) in u}):
+                    if v in inner:
+                        continue
+                    at = sorted(b for (b, vv) in u if vv == v)
+                    for a, b in itertools.combinations(at, 2):
+                        d = u[(a, v)][0] * u[(b, v)][0] + u[(a, v)][1] * u[(b, v)][1]
+                        ctx.assume(S.arccos(d, ctx.it.decide) < limit, "pre: outer ends not flagged")
             fm = force_matrix(ctx, fr, False, angle_limit=limit)
             internal = [ctx.list_of(ctx.callm(be, "get_vertices_ids")) for be in ctx.list_of(ctx.get(fr, "internal_big_edges"))]
             deletes = ctx.list_of(ctx.get(fm, "deletes"))
@@ -140,6 +151,10 @@ def o16_1(tier):
             ctx.ensure(used == want, "unknowns = internal interfaces minus those with both ends flagged, order kept")
         return h
     out = []
+    # a junction where four interfaces meet (quick: only that junction may be flagged; thorough: every end)
+    out.append(("four_fold,k=0,limit=symbolic,outer-ends-quiet", mk("four_fold", 0, False, True)))
+    if tier != "quick":
+        out.append(("four_fold,k=0,limit=symbolic", mk("four_fold", 0, False)))
     for shape in ("tri_star", "double_y"):
         out.append((f"{shape},k=1,limit=inf", mk(shape, 1, True)))
         if shape == "tri_star" or tier != "quick":
